@@ -8,6 +8,7 @@ import (
 	"time"
 
 	"github.com/safing/portbase/log"
+	"github.com/safing/portbase/utils/vhook"
 )
 
 // Default Worker Configuration.
@@ -46,6 +47,7 @@ func (m *Module) RunWorker(name string, fn func(context.Context) error) error {
 	atomic.AddInt32(m.workerCnt, 1)
 	defer func() {
 		atomic.AddInt32(m.workerCnt, -1)
+		vhook.AtS("modules.worker.dec", m.Name)
 		m.checkIfStopComplete()
 	}()
 
@@ -67,6 +69,7 @@ func (m *Module) runServiceWorker(name string, backoffDuration time.Duration, fn
 	atomic.AddInt32(m.workerCnt, 1)
 	defer func() {
 		atomic.AddInt32(m.workerCnt, -1)
+		vhook.AtS("modules.worker.dec", m.Name)
 		m.checkIfStopComplete()
 	}()
 
